@@ -277,6 +277,10 @@ func (e *Exec) setPath(v Value, path []int, nv Value) Value {
 	}
 	vs, ok := v.(VStruct)
 	if !ok {
+		if _, opaque := v.(VOpaque); opaque {
+			// field of an opaque (unmodelled) struct such as sync.Pool: ignored
+			return v
+		}
 		e.unsupported(fmt.Sprintf("field store on non-struct value %T", v))
 		return v
 	}
